@@ -12,9 +12,11 @@ comparison with the real code is exact on the machine representation.
 
 Round 4: every tower / curve / pairing / kyber-level / gfp.go-helper operation below is computed by the
 TRANSLATED function (`Dos.Gen.Bn256Code.*`, regenerated from the Go source by go/extract/bn256code on every
-run) at the Montgomery model `GFp` with the regenerated constants; the hand models they are proved equal to
-(Props/C10Code, Props/C10Kyber) are no longer called here. Only the byte-level marshalling of the `api` cases
-(property C11's codec) and the assembly interpreter are hand models.
+run) at the Montgomery model `GFp` with the regenerated constants, AND by the hand model it is proved equal to
+(Props/C10Code, Props/C10Kyber): `chk` prints the common value, or `TIE-BROKEN gen=… model=…` when a changed
+Go function made the translation differ from the model on this very operand (the concrete counterexample to
+the broken tie theorem; the implementation then disagrees with the line as well). Only the byte-level
+marshalling of the `api` cases (property C11's codec) and the assembly interpreter have no translated side.
 -/
 import DosModel.Model.Util
 import DosModel.Model.AsmBn256
@@ -29,6 +31,10 @@ open Dos.Gen
 
 def order : Nat := Gen.Bn256.Order
 def cs : FrobConsts GFp := frobConsts
+
+/-- the translated function's value `g` and the hand model's value `m` on the same operand -/
+def chk {α : Type} [DecidableEq α] (hex : α → String) (g m : α) : String :=
+  if g = m then hex g else "TIE-BROKEN gen=" ++ hex g ++ " model=" ++ hex m
 
 def hexNat (s : String) : Option Nat := (ofHex s).map beNat
 def natHex (n : Nat) : String := toHex (natBE 32 n)
@@ -99,58 +105,58 @@ def orBad (o : Option String) : String := o.getD bad
 def t2Case (op : String) (args : List String) : String := orBad do
   let a ← fp2Of (splitC (← args[0]?))
   match op with
-  | "sq" => pure (fp2Hex (Bn256Code.gfP2_square a))
-  | "inv" => pure (fp2Hex (Bn256Code.gfP2_invert a))
-  | "xi" => pure (fp2Hex (Bn256Code.gfP2_mulXi a))
-  | "conj" => pure (fp2Hex (Bn256Code.gfP2_conjugate a))
-  | "neg" => pure (fp2Hex (Bn256Code.gfP2_neg a))
-  | "muls" => do let b ← gfpOf (← args[1]?); pure (fp2Hex (Bn256Code.gfP2_mulScalar a b))
+  | "sq" => pure (chk fp2Hex (Bn256Code.gfP2_square a) (a.square))
+  | "inv" => pure (chk fp2Hex (Bn256Code.gfP2_invert a) (a.invert))
+  | "xi" => pure (chk fp2Hex (Bn256Code.gfP2_mulXi a) (a.mulXi))
+  | "conj" => pure (chk fp2Hex (Bn256Code.gfP2_conjugate a) (a.conjugate))
+  | "neg" => pure (chk fp2Hex (Bn256Code.gfP2_neg a) (a.neg))
+  | "muls" => do let b ← gfpOf (← args[1]?); pure (chk fp2Hex (Bn256Code.gfP2_mulScalar a b) (a.mulScalar b))
   | _ =>
     let b ← fp2Of (splitC (← args[1]?))
     match op with
-    | "mul" => pure (fp2Hex (Bn256Code.gfP2_mul a b))
-    | "add" => pure (fp2Hex (Bn256Code.gfP2_add a b))
-    | "sub" => pure (fp2Hex (Bn256Code.gfP2_sub a b))
+    | "mul" => pure (chk fp2Hex (Bn256Code.gfP2_mul a b) (a.mul b))
+    | "add" => pure (chk fp2Hex (Bn256Code.gfP2_add a b) (a.add b))
+    | "sub" => pure (chk fp2Hex (Bn256Code.gfP2_sub a b) (a.sub b))
     | _ => none
 
 def t6Case (op : String) (args : List String) : String := orBad do
   let a ← fp6Of (splitC (← args[0]?))
   match op with
-  | "sq" => pure (fp6Hex (Bn256Code.gfP6_square a))
-  | "inv" => pure (fp6Hex (Bn256Code.gfP6_invert a))
-  | "tau" => pure (fp6Hex (Bn256Code.gfP6_mulTau a))
-  | "neg" => pure (fp6Hex (Bn256Code.gfP6_neg a))
-  | "frob" => pure (fp6Hex (Bn256Code.gfP6_frobenius cs a))
-  | "frob2" => pure (fp6Hex (Bn256Code.gfP6_frobeniusP2 cs a))
-  | "frob4" => pure (fp6Hex (Bn256Code.gfP6_frobeniusP4 cs a))
-  | "muls" => do let b ← fp2Of (splitC (← args[1]?)); pure (fp6Hex (Bn256Code.gfP6_mulScalar a b))
-  | "mulg" => do let b ← gfpOf (← args[1]?); pure (fp6Hex (Bn256Code.gfP6_mulGFP a b))
+  | "sq" => pure (chk fp6Hex (Bn256Code.gfP6_square a) (a.square))
+  | "inv" => pure (chk fp6Hex (Bn256Code.gfP6_invert a) (a.invert))
+  | "tau" => pure (chk fp6Hex (Bn256Code.gfP6_mulTau a) (a.mulTau))
+  | "neg" => pure (chk fp6Hex (Bn256Code.gfP6_neg a) (a.neg))
+  | "frob" => pure (chk fp6Hex (Bn256Code.gfP6_frobenius cs a) (Fp6.frobenius a))
+  | "frob2" => pure (chk fp6Hex (Bn256Code.gfP6_frobeniusP2 cs a) (Fp6.frobeniusP2 a))
+  | "frob4" => pure (chk fp6Hex (Bn256Code.gfP6_frobeniusP4 cs a) (Fp6.frobeniusP4 a))
+  | "muls" => do let b ← fp2Of (splitC (← args[1]?)); pure (chk fp6Hex (Bn256Code.gfP6_mulScalar a b) (a.mulScalar b))
+  | "mulg" => do let b ← gfpOf (← args[1]?); pure (chk fp6Hex (Bn256Code.gfP6_mulGFP a b) (a.mulGFP b))
   | _ =>
     let b ← fp6Of (splitC (← args[1]?))
     match op with
-    | "mul" => pure (fp6Hex (Bn256Code.gfP6_mul a b))
-    | "add" => pure (fp6Hex (Bn256Code.gfP6_add a b))
-    | "sub" => pure (fp6Hex (Bn256Code.gfP6_sub a b))
+    | "mul" => pure (chk fp6Hex (Bn256Code.gfP6_mul a b) (a.mul b))
+    | "add" => pure (chk fp6Hex (Bn256Code.gfP6_add a b) (a.add b))
+    | "sub" => pure (chk fp6Hex (Bn256Code.gfP6_sub a b) (a.sub b))
     | _ => none
 
 def t12Case (op : String) (args : List String) : String := orBad do
   let a ← fp12Of (splitC (← args[0]?))
   match op with
-  | "sq" => pure (fp12Hex (Bn256Code.gfP12_square a))
-  | "inv" => pure (fp12Hex (Bn256Code.gfP12_invert a))
-  | "conj" => pure (fp12Hex (Bn256Code.gfP12_conjugate a))
-  | "neg" => pure (fp12Hex (Bn256Code.gfP12_neg a))
-  | "frob" => pure (fp12Hex (Bn256Code.gfP12_frobenius cs a))
-  | "frob2" => pure (fp12Hex (Bn256Code.gfP12_frobeniusP2 cs a))
-  | "frob4" => pure (fp12Hex (Bn256Code.gfP12_frobeniusP4 cs a))
-  | "exp" => do let k ← (← args[1]?).toNat?; pure (fp12Hex (Bn256Code.gfP12_exp a k))
-  | "finexp" => pure (fp12Hex (Bn256Code.finalExponentiation cs uParam a))
+  | "sq" => pure (chk fp12Hex (Bn256Code.gfP12_square a) (a.square))
+  | "inv" => pure (chk fp12Hex (Bn256Code.gfP12_invert a) (a.invert))
+  | "conj" => pure (chk fp12Hex (Bn256Code.gfP12_conjugate a) (a.conjugate))
+  | "neg" => pure (chk fp12Hex (Bn256Code.gfP12_neg a) (a.neg))
+  | "frob" => pure (chk fp12Hex (Bn256Code.gfP12_frobenius cs a) (Fp12.frobenius a))
+  | "frob2" => pure (chk fp12Hex (Bn256Code.gfP12_frobeniusP2 cs a) (Fp12.frobeniusP2 a))
+  | "frob4" => pure (chk fp12Hex (Bn256Code.gfP12_frobeniusP4 cs a) (Fp12.frobeniusP4 a))
+  | "exp" => do let k ← (← args[1]?).toNat?; pure (chk fp12Hex (Bn256Code.gfP12_exp a k) (a.exp k))
+  | "finexp" => pure (chk fp12Hex (Bn256Code.finalExponentiation cs uParam a) (finalExponentiation a))
   | _ =>
     let b ← fp12Of (splitC (← args[1]?))
     match op with
-    | "mul" => pure (fp12Hex (Bn256Code.gfP12_mul a b))
-    | "add" => pure (fp12Hex (Bn256Code.gfP12_add a b))
-    | "sub" => pure (fp12Hex (Bn256Code.gfP12_sub a b))
+    | "mul" => pure (chk fp12Hex (Bn256Code.gfP12_mul a b) (a.mul b))
+    | "add" => pure (chk fp12Hex (Bn256Code.gfP12_add a b) (a.add b))
+    | "sub" => pure (chk fp12Hex (Bn256Code.gfP12_sub a b) (a.sub b))
     | _ => none
 
 /-- receiver / operand aliasing of a point operation: the aliased operand is the SAME object -/
@@ -167,34 +173,38 @@ def g1Case (op : String) (args : List String) : String := orBad do
   match op with
   | "add" =>
       let (c, a, b) ← pick3 (← args[0]?) (← g1Of (← args[1]?)) (← g1Of (← args[2]?)) (← g1Of (← args[3]?))
-      pure (g1Hex (Bn256Code.curvePoint_add c a b))
+      pure (chk g1Hex (Bn256Code.curvePoint_add c a b) (Jac.add c a b))
   | "dbl" =>
       let (c, a, _) ← pick3 (← args[0]?) (← g1Of (← args[1]?)) (← g1Of (← args[2]?)) (← g1Of (← args[2]?))
-      pure (g1Hex (Bn256Code.curvePoint_double c a))
+      pure (chk g1Hex (Bn256Code.curvePoint_double c a) (Jac.double c a))
   | "mul" => do
       let a ← g1Of (← args[0]?)
       let k ← (← args[1]?).toNat?
-      pure (g1Hex (Bn256Code.curvePoint_mul a k))
-  | "aff" => do pure (g1Hex (Bn256Code.curvePoint_makeAffine (← g1Of (← args[0]?))))
-  | "neg" => do pure (g1Hex (Bn256Code.curvePoint_neg (← g1Of (← args[0]?))))
-  | "onc" => do pure (toString (Bn256Code.curvePoint_isOnCurve curveB (← g1Of (← args[0]?))).2)
+      pure (chk g1Hex (Bn256Code.curvePoint_mul a k) (Jac.curveMul a k))
+  | "aff" => do let a ← g1Of (← args[0]?); pure (chk g1Hex (Bn256Code.curvePoint_makeAffine a) a.makeAffine)
+  | "neg" => do let a ← g1Of (← args[0]?); pure (chk g1Hex (Bn256Code.curvePoint_neg a) (curveNeg a))
+  | "onc" => do
+      let a ← g1Of (← args[0]?)
+      pure (chk toString (Bn256Code.curvePoint_isOnCurve curveB a).2 (curveIsOnCurve a))
   | _ => none
 
 def g2Case (op : String) (args : List String) : String := orBad do
   match op with
   | "add" =>
       let (c, a, b) ← pick3 (← args[0]?) (← g2Of (← args[1]?)) (← g2Of (← args[2]?)) (← g2Of (← args[3]?))
-      pure (g2Hex (Bn256Code.twistPoint_add c a b))
+      pure (chk g2Hex (Bn256Code.twistPoint_add c a b) (Jac.add c a b))
   | "dbl" =>
       let (c, a, _) ← pick3 (← args[0]?) (← g2Of (← args[1]?)) (← g2Of (← args[2]?)) (← g2Of (← args[2]?))
-      pure (g2Hex (Bn256Code.twistPoint_double c a))
+      pure (chk g2Hex (Bn256Code.twistPoint_double c a) (Jac.double c a))
   | "mul" => do
       let a ← g2Of (← args[0]?)
       let k ← (← args[1]?).toNat?
-      pure (g2Hex (Bn256Code.twistPoint_mul a k))
-  | "aff" => do pure (g2Hex (Bn256Code.twistPoint_makeAffine (← g2Of (← args[0]?))))
-  | "neg" => do pure (g2Hex (Bn256Code.twistPoint_neg (← g2Of (← args[0]?))))
-  | "onc" => do pure (toString (Bn256Code.twistPoint_isOnCurve order twistB (← g2Of (← args[0]?))).2)
+      pure (chk g2Hex (Bn256Code.twistPoint_mul a k) (Jac.twistMul a k))
+  | "aff" => do let a ← g2Of (← args[0]?); pure (chk g2Hex (Bn256Code.twistPoint_makeAffine a) a.makeAffine)
+  | "neg" => do let a ← g2Of (← args[0]?); pure (chk g2Hex (Bn256Code.twistPoint_neg a) (twistNeg a))
+  | "onc" => do
+      let a ← g2Of (← args[0]?)
+      pure (chk toString (Bn256Code.twistPoint_isOnCurve order twistB a).2 (twistIsOnCurve a))
   | _ => none
 
 def pairsOf (s : String) : Option (List (G1J × G2J)) :=
@@ -256,9 +266,14 @@ def scalarV (k : Int) : Nat := (k % (order : Int)).toNat
 
 /-- PairingCheck through the translated kyber-level function (`none`: Go panics with index out of range) -/
 def checkStr (ps : List (G1J × G2J)) : String :=
-  match Bn256Code.pointGT_pairingCheck cs uParam (ps.map (·.1)) (ps.map (·.2)) with
-  | some v => toString v
-  | none => "panic"
+  chk (fun (o : Option Bool) => match o with
+    | some v => toString v
+    | none => "panic")
+    (Bn256Code.pointGT_pairingCheck cs uParam (ps.map (·.1)) (ps.map (·.2))) (some (pairingCheck ps))
+
+/-- an API step on which the translated function and the hand model differ adds the register `zTIE-BROKEN`
+(the implementation has no such register: the case is reported) -/
+def tieMark (rs : Regs) (same : Bool) : Regs := if same then rs else rs.put "zTIE-BROKEN" (.b false)
 
 def apiOp (rs : Regs) (dst name : String) (args : List String) : Option Regs := do
   let kind := dst.front
@@ -272,7 +287,9 @@ def apiOp (rs : Regs) (dst name : String) (args : List String) : Option Regs := 
           | _, _ => none
       | _ => none
     let ps ← pairs args
-    return rs.put dst (.b ((Bn256Code.pointGT_pairingCheck cs uParam (ps.map (·.1)) (ps.map (·.2))).getD false))
+    let vg := Bn256Code.pointGT_pairingCheck cs uParam (ps.map (·.1)) (ps.map (·.2))
+    let vm := pairingCheck ps
+    return (tieMark rs (vg = some vm)).put dst (.b vm)
   if kind == 'p' then
     let recv : G1J := match rs.get? dst with
       | some (.g1 p) => p
@@ -280,17 +297,24 @@ def apiOp (rs : Regs) (dst name : String) (args : List String) : Option Regs := 
     let g (n : String) : Option G1J := match rs.get? n with
       | some (.g1 p) => some p
       | _ => none
-    let v ← (match name with
-      | "base" => some (Bn256Code.pointG1_base curveGen)
-      | "null" => some Bn256Code.pointG1_null
-      | "mul" => do pure (Bn256Code.pointG1_mul (scalarV (← (← args[0]?).toInt?)) (← g (← args[1]?)))
-      | "add" => do pure (Bn256Code.pointG1_add recv (← g (← args[0]?)) (← g (← args[1]?)))
-      | "sub" => do pure (Bn256Code.pointG1_sub recv (← g (← args[0]?)) (← g (← args[1]?)))
-      | "neg" => do pure (Bn256Code.pointG1_neg (← g (← args[0]?)))
-      | "set" => do pure (Bn256Code.pointG1_set (← g (← args[0]?)))
-      | "clone" => do pure (g1Clone (← g (← args[0]?)))
+    -- (translated function, hand model) on the same operands
+    let (vg, v) ← (match name with
+      | "base" => some (Bn256Code.pointG1_base curveGen, curveGen)
+      | "null" => some (Bn256Code.pointG1_null, Jac.infinity)
+      | "mul" => do
+          let k := scalarV (← (← args[0]?).toInt?); let q ← g (← args[1]?)
+          pure (Bn256Code.pointG1_mul k q, Jac.curveMul q k)
+      | "add" => do
+          let a ← g (← args[0]?); let b ← g (← args[1]?)
+          pure (Bn256Code.pointG1_add recv a b, Jac.add recv a b)
+      | "sub" => do
+          let a ← g (← args[0]?); let b ← g (← args[1]?)
+          pure (Bn256Code.pointG1_sub recv a b, Jac.add recv a (curveNeg b))
+      | "neg" => do let a ← g (← args[0]?); pure (Bn256Code.pointG1_neg a, curveNeg a)
+      | "set" => do let a ← g (← args[0]?); pure (Bn256Code.pointG1_set a, a)
+      | "clone" => do let a ← g (← args[0]?); pure (g1Clone a, g1Clone a)
       | _ => none)
-    return rs.put dst (.g1 v)
+    return (tieMark rs (vg = v)).put dst (.g1 v)
   if kind == 'q' then
     let recv : G2J := match rs.get? dst with
       | some (.g2 p) => p
@@ -306,35 +330,47 @@ def apiOp (rs : Regs) (dst name : String) (args : List String) : Option Regs := 
         let rs := rs.put src (.g2 a.makeAffine)
         return rs.put dst (.g2 (g2Clone a))
     | _ =>
-      let v ← (match name with
-        | "base" => some (Bn256Code.pointG2_base twistGen)
-        | "null" => some Bn256Code.pointG2_null
-        | "mul" => do pure (Bn256Code.pointG2_mul (scalarV (← (← args[0]?).toInt?)) (← g (← args[1]?)))
-        | "add" => do pure (Bn256Code.pointG2_add recv (← g (← args[0]?)) (← g (← args[1]?)))
-        | "sub" => do pure (Bn256Code.pointG2_sub recv (← g (← args[0]?)) (← g (← args[1]?)))
-        | "neg" => do pure (Bn256Code.pointG2_neg (← g (← args[0]?)))
-        | "set" => do pure (Bn256Code.pointG2_set (← g (← args[0]?)))
+      let (vg, v) ← (match name with
+        | "base" => some (Bn256Code.pointG2_base twistGen, twistGen)
+        | "null" => some (Bn256Code.pointG2_null, Jac.infinity)
+        | "mul" => do
+            let k := scalarV (← (← args[0]?).toInt?); let q ← g (← args[1]?)
+            pure (Bn256Code.pointG2_mul k q, Jac.twistMul q k)
+        | "add" => do
+            let a ← g (← args[0]?); let b ← g (← args[1]?)
+            pure (Bn256Code.pointG2_add recv a b, Jac.add recv a b)
+        | "sub" => do
+            let a ← g (← args[0]?); let b ← g (← args[1]?)
+            pure (Bn256Code.pointG2_sub recv a b, Jac.add recv a (twistNeg b))
+        | "neg" => do let a ← g (← args[0]?); pure (Bn256Code.pointG2_neg a, twistNeg a)
+        | "set" => do let a ← g (← args[0]?); pure (Bn256Code.pointG2_set a, a)
         | _ => none)
-      return rs.put dst (.g2 v)
+      return (tieMark rs (vg = v)).put dst (.g2 v)
   if kind == 'e' then
     let g (n : String) : Option F12 := match rs.get? n with
       | some (.gt p) => some p
       | _ => none
-    let v ← (match name with
-      | "base" => some (Bn256Code.pointGT_base gfP12Gen)
-      | "null" => some (Bn256Code.pointGT_null gfP12Inf)
-      | "mul" => do pure (Bn256Code.pointGT_mul (scalarV (← (← args[0]?).toInt?)) (← g (← args[1]?)))
-      | "add" => do pure (Bn256Code.pointGT_add (← g (← args[0]?)) (← g (← args[1]?)))
-      | "sub" => do pure (Bn256Code.pointGT_sub (← g (← args[0]?)) (← g (← args[1]?)))
-      | "neg" => do pure (Bn256Code.pointGT_neg (← g (← args[0]?)))
-      | "set" => do pure (Bn256Code.pointGT_set (← g (← args[0]?)))
-      | "clone" => do pure (gtClone (← g (← args[0]?)))
+    let (vg, v) ← (match name with
+      | "base" => some (Bn256Code.pointGT_base gfP12Gen, gfP12Gen)
+      | "null" => some (Bn256Code.pointGT_null gfP12Inf, gfP12Inf)
+      | "mul" => do
+          let k := scalarV (← (← args[0]?).toInt?); let q ← g (← args[1]?)
+          pure (Bn256Code.pointGT_mul k q, q.exp k)
+      | "add" => do
+          let a ← g (← args[0]?); let b ← g (← args[1]?)
+          pure (Bn256Code.pointGT_add a b, a.mul b)
+      | "sub" => do
+          let a ← g (← args[0]?); let b ← g (← args[1]?)
+          pure (Bn256Code.pointGT_sub a b, a.mul b.conjugate)
+      | "neg" => do let a ← g (← args[0]?); pure (Bn256Code.pointGT_neg a, a.conjugate)
+      | "set" => do let a ← g (← args[0]?); pure (Bn256Code.pointGT_set a, a)
+      | "clone" => do let a ← g (← args[0]?); pure (gtClone a, gtClone a)
       | "pair" => do
           match ← rs.get? (← args[0]?), ← rs.get? (← args[1]?) with
-          | .g1 a, .g2 b => pure (Bn256Code.pointGT_pair cs uParam a b)
+          | .g1 a, .g2 b => pure (Bn256Code.pointGT_pair cs uParam a b, optimalAte b a)
           | _, _ => none
       | _ => none)
-    return rs.put dst (.gt v)
+    return (tieMark rs (vg = v)).put dst (.gt v)
   none
 
 def apiCase (prog : String) : String := orBad do
@@ -359,72 +395,75 @@ def apiCase (prog : String) : String := orBad do
 
 /-- run a kyber-level binary method `recv.op(a, b)` under an aliasing pattern; the observation is the content
 of the three objects after the call (the translation writes only the receiver) -/
-def kyBin {α : Type} (hex : α → String) (f : α → α → α → α) (alias : String) (c a b : α) : Option String := do
+def kyBin {α : Type} [DecidableEq α] (hex : α → String) (f fm : α → α → α → α) (alias : String) (c a b : α) :
+    Option String := do
   let (c', a', b') ← pick3 alias c a b
-  let r := f c' a' b'
-  let out (isRecv : Bool) (x : α) : String := if isRecv then hex r else hex x
+  let r := chk hex (f c' a' b') (fm c' a' b')
   match alias with
-  | "n" => pure (hex r ++ "|" ++ hex a' ++ "|" ++ hex b')
-  | "ca" => pure (hex r ++ "|" ++ hex r ++ "|" ++ hex b')
-  | "cb" => pure (hex r ++ "|" ++ hex a' ++ "|" ++ hex r)
-  | "ab" => pure (hex r ++ "|" ++ hex a' ++ "|" ++ hex a')
-  | "cab" => pure (out true c' ++ "|" ++ hex r ++ "|" ++ hex r)
+  | "n" => pure (r ++ "|" ++ hex a' ++ "|" ++ hex b')
+  | "ca" => pure (r ++ "|" ++ r ++ "|" ++ hex b')
+  | "cb" => pure (r ++ "|" ++ hex a' ++ "|" ++ r)
+  | "ab" => pure (r ++ "|" ++ hex a' ++ "|" ++ hex a')
+  | "cab" => pure (r ++ "|" ++ r ++ "|" ++ r)
   | _ => none
 
-def kyUn {α : Type} (hex : α → String) (f : α → α → α) (alias : String) (c a : α) : Option String :=
+def kyUn {α : Type} [DecidableEq α] (hex : α → String) (f fm : α → α → α) (alias : String) (c a : α) : Option String :=
   match alias with
-  | "n" => some (hex (f c a) ++ "|" ++ hex a)
-  | "ca" => some (hex (f a a) ++ "|" ++ hex (f a a))
+  | "n" => some (chk hex (f c a) (fm c a) ++ "|" ++ hex a)
+  | "ca" => some (chk hex (f a a) (fm a a) ++ "|" ++ chk hex (f a a) (fm a a))
   | _ => none
 
 def k1Case (op : String) (args : List String) : String := orBad do
   match op with
-  | "add" => kyBin g1Hex Bn256Code.pointG1_add (← args[0]?) (← g1Of (← args[1]?)) (← g1Of (← args[2]?)) (← g1Of (← args[3]?))
-  | "sub" => kyBin g1Hex Bn256Code.pointG1_sub (← args[0]?) (← g1Of (← args[1]?)) (← g1Of (← args[2]?)) (← g1Of (← args[3]?))
-  | "neg" => kyUn g1Hex (fun _ a => Bn256Code.pointG1_neg a) (← args[0]?) (← g1Of (← args[1]?)) (← g1Of (← args[2]?))
-  | "set" => kyUn g1Hex (fun _ a => Bn256Code.pointG1_set a) (← args[0]?) (← g1Of (← args[1]?)) (← g1Of (← args[2]?))
+  | "add" => kyBin g1Hex Bn256Code.pointG1_add Jac.add (← args[0]?) (← g1Of (← args[1]?)) (← g1Of (← args[2]?)) (← g1Of (← args[3]?))
+  | "sub" => kyBin g1Hex Bn256Code.pointG1_sub (fun c a b => Jac.add c a (curveNeg b)) (← args[0]?) (← g1Of (← args[1]?)) (← g1Of (← args[2]?)) (← g1Of (← args[3]?))
+  | "neg" => kyUn g1Hex (fun _ a => Bn256Code.pointG1_neg a) (fun _ a => curveNeg a) (← args[0]?) (← g1Of (← args[1]?)) (← g1Of (← args[2]?))
+  | "set" => kyUn g1Hex (fun _ a => Bn256Code.pointG1_set a) (fun _ a => a) (← args[0]?) (← g1Of (← args[1]?)) (← g1Of (← args[2]?))
   | "mul" => do
       let k ← (← args[3]?).toInt?
-      kyUn g1Hex (fun _ a => Bn256Code.pointG1_mul (scalarV k) a) (← args[0]?) (← g1Of (← args[1]?)) (← g1Of (← args[2]?))
+      kyUn g1Hex (fun _ a => Bn256Code.pointG1_mul (scalarV k) a) (fun _ a => Jac.curveMul a (scalarV k)) (← args[0]?) (← g1Of (← args[1]?)) (← g1Of (← args[2]?))
   | "mulnil" => do
       let _ ← g1Of (← args[0]?)
-      pure (g1Hex (Bn256Code.pointG1_mul_nil_q curveGen (scalarV (← (← args[1]?).toInt?))))
-  | "null" => do let _ ← g1Of (← args[0]?); pure (g1Hex (Bn256Code.pointG1_null : G1J))
-  | "base" => do let _ ← g1Of (← args[0]?); pure (g1Hex (Bn256Code.pointG1_base curveGen))
+      let k ← (← args[1]?).toInt?
+      pure (chk g1Hex (Bn256Code.pointG1_mul_nil_q curveGen (scalarV k)) (Jac.curveMul curveGen (scalarV k)))
+  | "null" => do let _ ← g1Of (← args[0]?); pure (chk g1Hex (Bn256Code.pointG1_null : G1J) Jac.infinity)
+  | "base" => do let _ ← g1Of (← args[0]?); pure (chk g1Hex (Bn256Code.pointG1_base curveGen) curveGen)
   | _ => none
 
 def k2Case (op : String) (args : List String) : String := orBad do
   match op with
-  | "add" => kyBin g2Hex Bn256Code.pointG2_add (← args[0]?) (← g2Of (← args[1]?)) (← g2Of (← args[2]?)) (← g2Of (← args[3]?))
-  | "sub" => kyBin g2Hex Bn256Code.pointG2_sub (← args[0]?) (← g2Of (← args[1]?)) (← g2Of (← args[2]?)) (← g2Of (← args[3]?))
-  | "neg" => kyUn g2Hex (fun _ a => Bn256Code.pointG2_neg a) (← args[0]?) (← g2Of (← args[1]?)) (← g2Of (← args[2]?))
-  | "set" => kyUn g2Hex (fun _ a => Bn256Code.pointG2_set a) (← args[0]?) (← g2Of (← args[1]?)) (← g2Of (← args[2]?))
+  | "add" => kyBin g2Hex Bn256Code.pointG2_add Jac.add (← args[0]?) (← g2Of (← args[1]?)) (← g2Of (← args[2]?)) (← g2Of (← args[3]?))
+  | "sub" => kyBin g2Hex Bn256Code.pointG2_sub (fun c a b => Jac.add c a (twistNeg b)) (← args[0]?) (← g2Of (← args[1]?)) (← g2Of (← args[2]?)) (← g2Of (← args[3]?))
+  | "neg" => kyUn g2Hex (fun _ a => Bn256Code.pointG2_neg a) (fun _ a => twistNeg a) (← args[0]?) (← g2Of (← args[1]?)) (← g2Of (← args[2]?))
+  | "set" => kyUn g2Hex (fun _ a => Bn256Code.pointG2_set a) (fun _ a => a) (← args[0]?) (← g2Of (← args[1]?)) (← g2Of (← args[2]?))
   | "mul" => do
       let k ← (← args[3]?).toInt?
-      kyUn g2Hex (fun _ a => Bn256Code.pointG2_mul (scalarV k) a) (← args[0]?) (← g2Of (← args[1]?)) (← g2Of (← args[2]?))
+      kyUn g2Hex (fun _ a => Bn256Code.pointG2_mul (scalarV k) a) (fun _ a => Jac.twistMul a (scalarV k)) (← args[0]?) (← g2Of (← args[1]?)) (← g2Of (← args[2]?))
   | "mulnil" => do
       let _ ← g2Of (← args[0]?)
-      pure (g2Hex (Bn256Code.pointG2_mul_nil_q twistGen (scalarV (← (← args[1]?).toInt?))))
-  | "null" => do let _ ← g2Of (← args[0]?); pure (g2Hex (Bn256Code.pointG2_null : G2J))
-  | "base" => do let _ ← g2Of (← args[0]?); pure (g2Hex (Bn256Code.pointG2_base twistGen))
+      let k ← (← args[1]?).toInt?
+      pure (chk g2Hex (Bn256Code.pointG2_mul_nil_q twistGen (scalarV k)) (Jac.twistMul twistGen (scalarV k)))
+  | "null" => do let _ ← g2Of (← args[0]?); pure (chk g2Hex (Bn256Code.pointG2_null : G2J) Jac.infinity)
+  | "base" => do let _ ← g2Of (← args[0]?); pure (chk g2Hex (Bn256Code.pointG2_base twistGen) twistGen)
   | _ => none
 
 def gtOf (s : String) : Option F12 := fp12Of (splitC s)
 
 def ktCase (op : String) (args : List String) : String := orBad do
   match op with
-  | "add" => kyBin fp12Hex (fun _ a b => Bn256Code.pointGT_add a b) (← args[0]?) (← gtOf (← args[1]?)) (← gtOf (← args[2]?)) (← gtOf (← args[3]?))
-  | "sub" => kyBin fp12Hex (fun _ a b => Bn256Code.pointGT_sub a b) (← args[0]?) (← gtOf (← args[1]?)) (← gtOf (← args[2]?)) (← gtOf (← args[3]?))
-  | "neg" => kyUn fp12Hex (fun _ a => Bn256Code.pointGT_neg a) (← args[0]?) (← gtOf (← args[1]?)) (← gtOf (← args[2]?))
-  | "set" => kyUn fp12Hex (fun _ a => Bn256Code.pointGT_set a) (← args[0]?) (← gtOf (← args[1]?)) (← gtOf (← args[2]?))
+  | "add" => kyBin fp12Hex (fun _ a b => Bn256Code.pointGT_add a b) (fun _ a b => a.mul b) (← args[0]?) (← gtOf (← args[1]?)) (← gtOf (← args[2]?)) (← gtOf (← args[3]?))
+  | "sub" => kyBin fp12Hex (fun _ a b => Bn256Code.pointGT_sub a b) (fun _ a b => a.mul b.conjugate) (← args[0]?) (← gtOf (← args[1]?)) (← gtOf (← args[2]?)) (← gtOf (← args[3]?))
+  | "neg" => kyUn fp12Hex (fun _ a => Bn256Code.pointGT_neg a) (fun _ a => a.conjugate) (← args[0]?) (← gtOf (← args[1]?)) (← gtOf (← args[2]?))
+  | "set" => kyUn fp12Hex (fun _ a => Bn256Code.pointGT_set a) (fun _ a => a) (← args[0]?) (← gtOf (← args[1]?)) (← gtOf (← args[2]?))
   | "mul" => do
       let k ← (← args[3]?).toInt?
-      kyUn fp12Hex (fun _ a => Bn256Code.pointGT_mul (scalarV k) a) (← args[0]?) (← gtOf (← args[1]?)) (← gtOf (← args[2]?))
+      kyUn fp12Hex (fun _ a => Bn256Code.pointGT_mul (scalarV k) a) (fun _ a => a.exp (scalarV k)) (← args[0]?) (← gtOf (← args[1]?)) (← gtOf (← args[2]?))
   | "mulnil" => do
       let _ ← gtOf (← args[0]?)
-      pure (fp12Hex (Bn256Code.pointGT_mul_nil_q gfP12Gen (scalarV (← (← args[1]?).toInt?))))
-  | "null" => do let _ ← gtOf (← args[0]?); pure (fp12Hex (Bn256Code.pointGT_null gfP12Inf))
-  | "base" => do let _ ← gtOf (← args[0]?); pure (fp12Hex (Bn256Code.pointGT_base gfP12Gen))
+      let k ← (← args[1]?).toInt?
+      pure (chk fp12Hex (Bn256Code.pointGT_mul_nil_q gfP12Gen (scalarV k)) (gfP12Gen.exp (scalarV k)))
+  | "null" => do let _ ← gtOf (← args[0]?); pure (chk fp12Hex (Bn256Code.pointGT_null gfP12Inf) gfP12Inf)
+  | "base" => do let _ ← gtOf (← args[0]?); pure (chk fp12Hex (Bn256Code.pointGT_base gfP12Gen) gfP12Gen)
   | _ => none
 
 /-- tower operation under a receiver / operand aliasing pattern: the model is a function of the operand VALUES,
@@ -440,10 +479,10 @@ def towerAlias (f : String → List String → String) (op alias : String) (args
 def step (line : String) : String :=
   match words line with
   | ["f", op, alias, a, b] => fieldCase op alias a b
-  | ["fx", "enc", a] => orBad do pure (gfpHex (Bn256Code.montEncode GFp.r2 (← gfpOf a)))
-  | ["fx", "dec", a] => orBad do pure (gfpHex (Bn256Code.montDecode (← gfpOf a)))
-  | ["fx", "inv", a] => orBad do pure (gfpHex (Bn256Code.gfP_invert GFp.r3 GFp.rN1 (← gfpOf a)))
-  | ["fx", "new", k] => orBad do pure (gfpHex (Bn256Code.newGFp GFp.r2 (← k.toInt?)))
+  | ["fx", "enc", a] => orBad do let a ← gfpOf a; pure (chk gfpHex (Bn256Code.montEncode GFp.r2 a) (GFp.montEncode a))
+  | ["fx", "dec", a] => orBad do let a ← gfpOf a; pure (chk gfpHex (Bn256Code.montDecode a) (GFp.montDecode a))
+  | ["fx", "inv", a] => orBad do let a ← gfpOf a; pure (chk gfpHex (Bn256Code.gfP_invert GFp.r3 GFp.rN1 a) (GFp.invert a))
+  | ["fx", "new", k] => orBad do let k ← k.toInt?; pure (chk gfpHex (Bn256Code.newGFp GFp.r2 k) (GFp.newGFp k))
   | "t2a" :: op :: alias :: args => towerAlias t2Case op alias args
   | "t6a" :: op :: alias :: args => towerAlias t6Case op alias args
   | "t12a" :: op :: alias :: args => towerAlias t12Case op alias args
@@ -452,9 +491,15 @@ def step (line : String) : String :=
   | "t12" :: op :: args => t12Case op args
   | "g1" :: op :: args => g1Case op args
   | "g2" :: op :: args => g2Case op args
-  | ["miller", q, p] => orBad do pure (fp12Hex (Bn256Code.pointGT_miller cs (← g1Of p) (← g2Of q)))
-  | ["pair", q, p] => orBad do pure (fp12Hex (Bn256Code.pointGT_pair cs uParam (← g1Of p) (← g2Of q)))
-  | ["pair", q, p, _, _] => orBad do pure (fp12Hex (Bn256Code.pointGT_pair cs uParam (← g1Of p) (← g2Of q)))
+  | ["miller", q, p] => orBad do
+      let p ← g1Of p; let q ← g2Of q
+      pure (chk fp12Hex (Bn256Code.pointGT_miller cs p q) (miller q p))
+  | ["pair", q, p] => orBad do
+      let p ← g1Of p; let q ← g2Of q
+      pure (chk fp12Hex (Bn256Code.pointGT_pair cs uParam p q) (optimalAte q p))
+  | ["pair", q, p, _, _] => orBad do
+      let p ← g1Of p; let q ← g2Of q
+      pure (chk fp12Hex (Bn256Code.pointGT_pair cs uParam p q) (optimalAte q p))
   | ["api", prog] => apiCase prog
   | ["check", ps] => orBad do pure (checkStr (← pairsOf ps))
   | "k1" :: op :: args => k1Case op args
